@@ -139,6 +139,8 @@ def run(rep, ctx, tier):
         if b is not None:
             R5.check_not_positional(rep, ctx, "R5p", "%s.trim" % sk, b, T2.SCHEMES[sk]["adt"], T2.ROLES["trim"]["enforced_degree_bounds"],
                                     "enforced degree bounds")
+            R5.check_unfiltered(rep, ctx, "R5f", "%s.trim" % sk, b, T2.SCHEMES[sk]["adt"], T2.ROLES["trim"]["enforced_degree_bounds"],
+                                "enforced degree bounds")
     # R5s: what `open` can refuse, `batch_open` can refuse, and what that can refuse, `open_combinations` can refuse
     # (and likewise along check -> batch_check -> check_combinations): siblings agree on refusals
     from ..rules import siblings as R5S
